@@ -446,7 +446,7 @@ def struct_fields(src_rel, struct):
     import os, re
     import common
     text = open(os.path.join(common.REPO, src_rel), errors="replace").read()
-    m = re.search(r"struct\s+%s\s*\{(.*?)\n\}" % struct, text, re.S)
+    m = re.search(r"struct\s+%s\s*(?:<[^>]*>)?\s*\{(.*?)\n\}" % struct, text, re.S)
     if not m:
         raise Unsupported("struct %s not found in %s" % (struct, src_rel))
     names = []
@@ -1010,3 +1010,289 @@ def _(ctx):
             ctx.claim(ex, o.path.add(cond), secs == want, "'A to B' on two %ss is not the absolute difference" % k.lower(), rp)
     if seen != {"Date", "Time"}:
         ctx.failures.append(("to_duration: kinds without an Ok path: %s" % sorted({"Date", "Time"} - seen), {}, None))
+
+
+# ============================================================================ C02 / C01: glue + parser + interpreter on token lists
+ALPHABET = "n+-*/()"
+
+
+class RefParser:
+    """the usual rules over a raw token shape (before the implicit-'+' glue): returns a z3 real term or None"""
+
+    def __init__(self, shape, xs):
+        self.s, self.xs, self.i, self.k = shape, xs, 0, 0
+
+    def peek(self):
+        return self.s[self.i] if self.i < len(self.s) else None
+
+    def starts_factor(self):
+        return self.peek() in ("n", "(")
+
+    def expr(self):
+        v = self.term()
+        if v is None:
+            return None
+        while True:
+            c = self.peek()
+            if c in ("+", "-"):
+                self.i += 1
+                r = self.term()
+                if r is None:
+                    return None
+                v = v + r if c == "+" else v - r
+            elif self.starts_factor():
+                r = self.term()
+                if r is None:
+                    return None
+                v = v + r          # operands written side by side are added
+            else:
+                return v
+
+    def term(self):
+        v = self.factor()
+        if v is None:
+            return None
+        while self.peek() in ("*", "/"):
+            c = self.peek()
+            self.i += 1
+            r = self.factor()
+            if r is None:
+                return None
+            v = v * r if c == "*" else z3.If(r == 0, 0, v / r)
+        return v
+
+    def factor(self):
+        c = self.peek()
+        if c in ("+", "-"):
+            self.i += 1
+            r = self.factor()
+            if r is None:
+                return None
+            return r if c == "+" else -r
+        if c == "n":
+            self.i += 1
+            v = self.xs[self.k]
+            self.k += 1
+            return v
+        if c == "(":
+            self.i += 1
+            v = self.expr()
+            if v is None or self.peek() != ")":
+                return None
+            self.i += 1
+            return v
+        return None
+
+    @staticmethod
+    def value(shape, xs):
+        p = RefParser(shape, xs)
+        v = p.expr()
+        return v if v is not None and p.i == len(shape) else None
+
+
+def run_expression(ex, shape):
+    """glue + real parser ladder + real interpreter on one token shape; yields (outcome, number terms)"""
+    from engine_m import find_fn
+    tfields = struct_fields("src/tokinizer/mod.rs", "Tokinizer")
+    tok_idx = tfields.index("tokens")
+    tk = SymV(ex, "tokinizer", "tokinizer::Tokinizer")
+    sess = SymV(ex, "session", "session::Session")
+    cfgv = SymV(ex, "config", "config::SmartCalcConfig")
+    xs, toks = [], []
+    for c in shape:
+        if c == "n":
+            x = ex.fsym("x%d" % len(xs))
+            xs.append(x.t)
+            toks.append(EnumV("TokenType", "Number", [x, EnumV("NumberType", "Decimal", [])]))
+        else:
+            toks.append(EnumV("TokenType", "Operator", [IntV(ord(c), 32, False)]))
+    p0 = Path(stores={(tk.path, tok_idx): VecV(toks)})
+    adder = find_fn("missing_token_adder")
+    new = find_fn("syntax::<impl at src/syntax/mod.rs:38:1: 38:26>::new") if False else None
+    fns = ex.fns
+    newfn = [f for n, f in fns.items() if n.endswith("::new") and f.args and len(f.args) == 2 and "Tokinizer" in f.args[1][1] and "Session" in f.args[0][1]]
+    parsefn = [f for n, f in fns.items() if _re.search(r"syntax::<impl at src/syntax/mod\.rs[^>]*>::parse$", n)]
+    execfn = [f for n, f in fns.items() if _re.search(r"<impl at src/compiler/mod\.rs[^>]*>::execute$", n)]
+    if len(newfn) != 1 or len(parsefn) != 1 or len(execfn) != 1:
+        raise Unsupported("parser entry points not found (%d,%d,%d)" % (len(newfn), len(parsefn), len(execfn)))
+    for o1 in ex.run(adder, [RefV(tk)], p0):
+        if o1.kind == "panic":
+            yield o1, xs
+            continue
+        for o2 in ex.run(newfn[0], [RefV(sess), RefV(tk)], o1.path):
+            parser = o2.value
+            for o3 in ex.run(parsefn[0], [RefV(parser)], o2.path):
+                if o3.kind == "panic":
+                    yield o3, xs
+                    continue
+                r = o3.value
+                if not (isinstance(r, EnumV) and r.enum == "Result"):
+                    raise Unsupported("parse returned %r" % (r,))
+                if r.variant == "Err":
+                    yield Outcome_("parse_err", o3.path, r.f[0]), xs
+                    continue
+                for o4 in ex.run(execfn[0], [RefV(cfgv), r.f[0], RefV(sess)], o3.path):
+                    yield o4, xs
+
+
+class Outcome_:
+    def __init__(self, kind, path, value=None, msg=""):
+        self.kind, self.path, self.value, self.msg = kind, path, value, msg
+
+
+def result_number(o):
+    """Ok(Rc<Item(NumberItem(v, _))>) -> FloatV or None"""
+    v = o.value
+    if isinstance(v, EnumV) and v.enum == "Result" and v.variant == "Ok":
+        a = v.f[0]
+        if isinstance(a, EnumV) and a.variant == "Item" and isinstance(a.f[0], ItemV) and a.f[0].kind == "NumberItem":
+            return a.f[0].f[0]
+    return None
+
+
+def shapes(max_len):
+    import itertools
+    for n in range(1, max_len + 1):
+        for t in itertools.product(ALPHABET, repeat=n):
+            yield "".join(t)
+
+
+def shape_code(shape):
+    return [(len(shape), "u8")] + [(ALPHABET.index(c), "u8") for c in shape]
+
+
+def check_shape(shape):
+    """worker: returns (shape, well_formed, status, detail, n_paths, n_queries, solver_s, model)"""
+    import time as _t
+    ex = new_exec("real", feas_ms=2000)
+    t0 = _t.time()
+    nq = 0
+    res = {"shape": shape, "wf": False, "status": "pass", "detail": "", "paths": 0, "queries": 0, "values": None}
+    try:
+        xs_syms = None
+        outs = list(run_expression(ex, shape))
+        res["paths"] = len(outs)
+        xs = outs[0][1] if outs else []
+        want = RefParser.value(shape, xs) if outs else None
+        res["wf"] = want is not None
+        for o, _ in outs:
+            s = z3.Solver()
+            s.set("timeout", 20000)
+            for c in ex.domain + ex.assumptions + list(o.path.pc):
+                s.add(c)
+            if o.kind == "panic":
+                nq += 1
+                r = s.check()
+                if r == z3.sat:
+                    m = s.model()
+                    res.update(status="fail", detail="panic: " + o.msg, values=[str(m.eval(x, model_completion=True)) for x in xs])
+                    break
+                if r == z3.unknown:
+                    res.update(status="unknown", detail="panic path undecided")
+                continue
+            if want is None:
+                continue
+            got = result_number(o) if o.kind == "return" else None
+            if got is None:
+                nq += 1
+                r = s.check()
+                if r == z3.sat:
+                    m = s.model()
+                    what = "is rejected (%s)" % (o.value.f[0] if o.kind == "parse_err" and hasattr(o.value, "f") else o.kind) if o.kind == "parse_err" else "does not evaluate to a number"
+                    res.update(status="fail", detail="well-formed expression %s" % what, values=[str(m.eval(x, model_completion=True)) for x in xs])
+                    break
+                continue
+            s.add(z3.Not(z3.And(got.t == want)))
+            nq += 1
+            r = s.check()
+            if r == z3.sat:
+                m = s.model()
+                res.update(status="fail", detail="value differs from the usual rules", values=[str(m.eval(x, model_completion=True)) for x in xs])
+                break
+            if r == z3.unknown:
+                res.update(status="unknown", detail="value query undecided")
+    except Unsupported as e:
+        res.update(status="unsupported", detail=str(e)[:200])
+    res["queries"] = nq
+    res["t"] = _t.time() - t0
+    return res
+
+
+def expression_spec(ctx, max_len, finding_filter=None):
+    import multiprocessing as mp
+    from engine_m import mir, to_f64, f64_bytes
+    mir()
+    todo = list(shapes(max_len))
+    with mp.Pool(min(16, mp.cpu_count())) as pool:
+        results = pool.map(check_shape, todo, chunksize=32)
+    ctx.part.functions += ["tokinizer::Tokinizer::missing_token_adder", "syntax::SyntaxParser::parse", "syntax::binary::parse_binary", "syntax::unary::UnaryParser::parse",
+                           "syntax::primative::PrimativeParser::parse", "syntax::assignment::AssignmentParser::parse", "compiler::Interpreter::execute", "compiler::number::calculate"]
+    wf = [r for r in results if r["wf"]]
+    ctx.paths += sum(r["paths"] for r in results)
+    ctx.part.queries += sum(r["queries"] for r in results)
+    ctx.part.solver_s += sum(r["t"] for r in results)
+    ctx.part.sample = {"token_shapes": len(results), "well_formed": len(wf), "alphabet": ALPHABET, "example": wf[len(wf) // 2]["shape"] if wf else None}
+    return results
+
+
+def report_shapes(ctx, results, keep):
+    from engine_m import to_f64, f64_bytes
+    uns = [r for r in results if r["status"] == "unsupported"]
+    if uns:
+        raise Unsupported("%d shapes refused, e.g. %s: %s" % (len(uns), uns[0]["shape"], uns[0]["detail"]))
+    for r in results:
+        if r["status"] == "unknown" and keep(r):
+            ctx.unknown.append("%s: %s" % (r["shape"], r["detail"]))
+        if r["status"] == "fail" and keep(r):
+            vals = [f64_bytes(to_f64(v)) for v in (r["values"] or [])]
+            enc = [[len(r["shape"])]] + [[ALPHABET.index(c)] for c in r["shape"]] + vals
+            ctx.failures.append(("tokens %s: %s" % (" ".join(r["shape"]), r["detail"]), {"shape": r["shape"], "numbers": r["values"]}, ("m_replay_expression", enc)))
+
+
+@spec("C02", "m_expression_shapes_4", "every token list of length <= 4 over {number, + - * / ( )} through the REAL glue (missing_token_adder), parser ladder and interpreter, translated from MIR: each well-formed expression (precedence, left associativity, parentheses, sign prefixes, juxtaposition = '+', x/0 = 0) evaluates to the value given by the usual rules for ALL real operand values; shapes enumerated exhaustively, operand values symbolic (z3)", tiers=("quick",))
+def _(ctx):
+    res = expression_spec(ctx, 4)
+    report_shapes(ctx, res, lambda r: r["wf"])
+
+
+@spec("C02", "m_expression_shapes_6", "same for every token list of length <= 6 (137 256 shapes)", tiers=("thorough",))
+def _(ctx):
+    res = expression_spec(ctx, 6)
+    report_shapes(ctx, res, lambda r: r["wf"])
+
+
+@spec("C01", "m_token_pipeline_total_4", "every token list of length <= 4 over {number, + - * / ( )}, well-formed or not, through the real glue, parser and interpreter (MIR): no panic path is satisfiable and every loop/recursion terminates within the executor's budget", tiers=("quick",))
+def _(ctx):
+    res = expression_spec(ctx, 4)
+    report_shapes(ctx, res, lambda r: r["detail"].startswith("panic") or r["status"] == "unknown")
+
+
+@spec("C01", "m_token_pipeline_total_5", "same for length <= 5 (19 607 shapes)", tiers=("thorough",))
+def _(ctx):
+    res = expression_spec(ctx, 5)
+    report_shapes(ctx, res, lambda r: r["detail"].startswith("panic") or r["status"] == "unknown")
+
+
+@spec("C11", "m_to_duration_times", "to_duration (MIR -> SMT): 'T1 to T2' on two times is the absolute difference of the two instants, symmetric, for all times of years 1..9999; no panic")
+def _(ctx):
+    ex, fields, toks, args, cfgv, tkv = setup_rule("to_duration", "real")
+    a, b = toks["source"], toks["target"]
+    ex.assumptions.append(z3.And(tag_is(ex, a, "Time"), tag_is(ex, b, "Time")))
+    outs, _ = run_fn(ex, "duration_rules::to_duration", args)
+    ctx.part.functions.append("duration_rules::to_duration")
+    ctx.paths += len(outs)
+    va, _ = tz_fields(a, "Time")
+    vb, _ = tz_fields(b, "Time")
+    rp = ("m_replay_to_duration_times", [(va.days, "i64"), (va.secs, "u32"), (vb.days, "i64"), (vb.secs, "u32")])
+    n = 0
+    for o in outs:
+        if o.kind == "panic":
+            ctx.reachable(ex, o.path, "to_duration can panic: " + o.msg, rp)
+        elif is_err(o):
+            ctx.reachable(ex, o.path, "to_duration declines two times", rp)
+        else:
+            secs = duration_payload(o)
+            n += 1
+            ctx.claim(ex, o.path, secs == abs_(va.total() - vb.total()), "'T1 to T2' is not the absolute difference of the two instants", rp)
+    if not n:
+        ctx.failures.append(("to_duration has no Ok path for two times", {}, None))
